@@ -158,6 +158,18 @@ func runStuckScenario(bin, scenario string, round int) stuckOutcome {
 	if !step("marker_after_flood_routed", roundTrip(r2, ha, "hostA", 1)) {
 		return o
 	}
+	// the stuck peer is connected all the while: the server may drop what its queue cannot hold, but it must not tell
+	// the author that the addressee does not exist
+	notFound := false
+	for _, e := range r2.snapshot() {
+		if e.Type == protocol.TypeError {
+			var pe protocol.Error
+			if e.DecodePayload(&pe) == nil && strings.Contains(pe.Message, "recvA1") {
+				notFound = true
+			}
+		}
+	}
+	step("connected_peer_never_reported_as_unknown", !notFound)
 	switch scenario {
 	case "reconnect":
 		// the stuck peer's device comes back: a new connection under the same peer id
@@ -264,7 +276,11 @@ func StuckPeer(args []string) {
 			res.Steps += len(o.Steps)
 			if o.Failed != "" {
 				outcomes[sc+": "+o.Failed+" failed"]++
-				res.AddViolation(map[string]any{"kind": "server_waits_for_a_peer_that_stopped_reading", "scenario": sc, "step": o.Failed}, o)
+				kind := "server_waits_for_a_peer_that_stopped_reading"
+				if o.Failed == "connected_peer_never_reported_as_unknown" {
+					kind = "connected_peer_reported_as_unknown"
+				}
+				res.AddViolation(map[string]any{"kind": kind, "scenario": sc, "step": o.Failed}, o)
 			} else {
 				outcomes[sc+": ok"]++
 			}
